@@ -636,86 +636,6 @@ def builder_text(it, fname, mkargs):
     return ''.join(parts)
 
 
-# ---- R09.6 ----------------------------------------------------------------------------------------
-
-def check_data_modes(chk, tus):
-    ctu = tus[0]
-    it = c06.make(tus)
-    modes = dict(ctu.enum_decls.get('WasmDataSegmentMode', []))
-    chk.require('wasmDataSegmentModeArrays' in modes and 'wasmDataSegmentModeGNULD' in modes, 'enum WasmDataSegmentMode not found')
-    layouts = [
-        [(3, True), (5, False), (2, True), (4, False)],
-        [(5, False), (3, True), (4, False)],
-        [(2, True), (7, True), (1, False)],
-        [(6, False), (4, False)],
-    ]
-    site = 'wasmCWriteInitMemories:data-mode'
-    for li, layout in enumerate(layouts):
-        def mk(layout=layout):
-            ds = [(0, None if passive else M.i32_const(16 * (k + 1)), n, passive) for k, (n, passive) in enumerate(layout)]
-            return M.build(it, types=[([], [])], functions=[0], memories=[(1, 2, False)], data_segments=ds)
-        base = c06.split_functions(c06.inits_text(it, mk, 0, modes['wasmDataSegmentModeArrays'])).get('modInitMemories', '')
-        loads0 = re.findall(r'LOAD_DATA\(([^,]+),\s*([^,]+),\s*([^,]+),\s*(\d+)\);', base)
-        want0 = [('(*i->m0)', '%dU' % (16 * (k + 1)), 'd%d' % k, str(n)) for k, (n, passive) in enumerate(layout) if not passive]
-        chk.expect([tuple(x.strip() for x in l) for l in loads0] == want0, 'R09.6', 'layout%d:arrays' % li,
-                   'arrays mode loads %r, expected %r' % (loads0, want0), site)
-        for mname, mval in sorted(modes.items()):
-            if mname == 'wasmDataSegmentModeArrays':
-                continue
-            for pretty in (0, 1):
-                text = c06.split_functions(c06.inits_text(it, mk, pretty, mval)).get('modInitMemories', '')
-                loads = [tuple(x.strip() for x in l) for l in re.findall(r'LOAD_DATA\(([^,]+),\s*([^,]+),\s*([^,]+),\s*(\d+)\);', text)]
-                ptrs = re.findall(r'\b(d\d+)\s*=\s*ds\s*\+\s*(\d+)\s*;', text)
-                prefix = 0
-                want_loads, want_ptrs = [], []
-                for k, (n, passive) in enumerate(layout):
-                    if passive:
-                        want_ptrs.append(('d%d' % k, str(prefix)))
-                    else:
-                        want_loads.append(('(*i->m0)', '%dU' % (16 * (k + 1)), 'ds+%d' % prefix, str(n)))
-                    prefix += n
-                got_loads = [(a, b, c.replace(' ', ''), d) for a, b, c, d in loads]
-                chk.expect(got_loads == want_loads and ptrs == want_ptrs, 'R09.6', 'layout%d:%s:p%d' % (li, mname, pretty),
-                           'segments %r in mode %s: active loads %r and passive pointers %r; the blob is the concatenation of all segments, so '
-                           'the expected addresses are %r and %r - with other offsets the program reads different bytes than in arrays mode'
-                           % (layout, mname, got_loads, ptrs, want_loads, want_ptrs), site)
-    # the blob writer: one unconditional fwrite of the full segment per iteration
-    f = ctu.functions.get('wasmCWriteDataSegmentsFromSection')
-    chk.require(f is not None, 'anchor wasmCWriteDataSegmentsFromSection not found')
-    body = astdb.fn_body(f)
-    loops = [l for l in walk(body) if l.get('kind') == 'ForStmt' and any(c.get('kind') == 'CallExpr' and astdb.callee_name(c) == 'fwrite' for c in walk(l))]
-    chk.require(len(loops) == 1, 'blob writer: %d loops with fwrite' % len(loops))
-    loop = loops[0]
-    cond = astdb.expr_text(strip(loop['inner'][2], casts=True))
-    lb = loop['inner'][4]
-    inits = {}
-    for d in walk(lb):
-        if d.get('kind') == 'VarDecl' and d.get('init'):
-            inits[d['name']] = astdb.expr_text(strip([c for c in kids(d) if c.get('kind')][-1], casts=True))
-    fw = [c for c in walk(lb) if c.get('kind') == 'CallExpr' and astdb.callee_name(c) == 'fwrite'][0]
-    a = [astdb.expr_text(strip(x, casts=True)) for x in astdb.call_args(fw)]
-    seg = [k for k, v in inits.items() if re.fullmatch(r'module->dataSegments\.dataSegments\[(\w+)\]', v)]
-    ok = bool(seg) and a[0] == seg[0] + '.bytes.data' and astdb.const_int(astdb.call_args(fw)[1]) == 1 and \
-        (a[2] == seg[0] + '.bytes.length' or inits.get(a[2]) == seg[0] + '.bytes.length')
-    # unconditional: the fwrite is not nested in an if/switch/conditional and nothing can skip it
-    top = [s_ for s_ in lb.get('inner', []) if s_.get('kind')]
-    uncond = any(any(x is fw for x in walk(s_)) and s_.get('kind') in ('DeclStmt', 'CallExpr', 'BinaryOperator') for s_ in top)
-    skips = [x.get('kind') for x in walk(lb) if x.get('kind') in ('ContinueStmt', 'BreakStmt', 'GotoStmt')]
-    m = re.fullmatch(r'(\w+)\s*<\s*(\w+)', cond)
-    bound_ok = m is not None and (inits.get(m.group(2)) or _fn_init(body, m.group(2))) in ('module->dataSegments.count',)
-    chk.expect(ok and uncond and not skips and bound_ok, 'R09.6', 'blob-writer',
-               'the data-segment blob writer does fwrite(%s) in a loop over %r (unconditional: %s, skips: %r): the blob must contain every '
-               'segment, in order, with its full length, because InitMemories addresses it by prefix sums' % (', '.join(a), cond, uncond, skips),
-               'wasmCWriteDataSegmentsFromSection:blob')
-
-
-def _fn_init(body, name):
-    for d in walk(body):
-        if d.get('kind') == 'VarDecl' and d.get('name') == name and d.get('init'):
-            return astdb.expr_text(strip([c for c in kids(d) if c.get('kind')][-1], casts=True))
-    return None
-
-
 def run(chk):
     chk.explanation = (
         'Writer pool: structured lock-region must-analysis of the worker and the producer in the HAS_PTHREAD=1 configuration (facts held/free '
@@ -735,7 +655,7 @@ def run(chk):
     tus = emit.translator_tus(('c.c', 'opcode.c', 'instruction.c'), chk=chk)
     n_t = check_neutrality(chk, tus)
     n_w = check_twins(chk, tus)
-    check_data_modes(chk, tus)
+    c06.check_data_modes(chk, tus, 'R09.6')
     chk.extra['template_pairs'] = n_t
     chk.extra['twin_evaluations'] = n_w
     chk.floor('R09.1', 30)
